@@ -58,6 +58,22 @@ func (fr *frame) asValue(v Val, st *State) string {
 	if v.Buf != nil {
 		fr.ft.escSite = append(fr.ft.escSite, site{v.Buf.Root, fr.curBlk, fr.curIdx})
 	}
+	if v.P != nil && v.P.Seq != nil && v.P.Seq.Buf == nil {
+		// &s[i] of an (immutable) slice value used as a pointer: modelled as a pointer to a fresh cell holding a copy
+		// of the element (sound as long as neither the slice nor the element is mutated afterwards, which the
+		// translator's slice-mutation check enforces for the slice)
+		ft := fr.ft
+		es := ft.g.reg.SortOf(v.P.Ty)
+		ref := fr.newRef(st)
+		hs := "(Array Int " + es + ")"
+		h := ft.stateGet(st, "H|"+es, hs)
+		nh := ft.fresh("h", hs)
+		ft.fact("(= " + nh + " (store " + h + " " + ref + " " + ft.load(v.P, st) + "))")
+		ft.pendingAlloc = fr.curBlk
+		ft.stateSet(fr, st, "H|"+es, hs, nh)
+		ft.assumed["address of a slice element is treated as a pointer to a copy of the element"] = true
+		return ref
+	}
 	if v.P != nil && v.P.Seq == nil {
 		// a pointer used as a value: must be a plain reference to a whole cell
 		if len(v.P.Path) == 0 && v.P.Global == "" {
@@ -107,8 +123,9 @@ func (fr *frame) instr(in ssa.Instruction, st *State, reach string) {
 		h := ft.stateGet(st, "H|"+s, hs)
 		nh := ft.fresh("h", hs)
 		ft.fact("(= " + nh + " (store " + h + " " + ref + " " + g.zero(elem) + "))")
+		ft.pendingAlloc = x.Block()
 		ft.stateSet(fr, st, "H|"+s, hs, nh)
-		fr.vals[x] = Val{T: ref, Ty: x.Type(), P: &Place{Var: "H|" + s, Sort: s, Ref: ref, Ty: elem, NonNil: true}}
+		fr.vals[x] = Val{T: ref, Ty: x.Type(), P: &Place{Var: "H|" + s, Sort: s, Ref: ref, Ty: elem, NonNil: true, AllocBlk: x.Block()}}
 	case *ssa.FieldAddr:
 		base := fr.val(x.X)
 		pt := x.X.Type().Underlying().(*types.Pointer)
